@@ -11,7 +11,8 @@
 (*            typeIds  : types in the order of their FIRST USE in the      *)
 (*                       process (type::extend<T>::s_local_type_value)     *)
 (*            heap, alloc : address base of the process / allocations made *)
-(*                       so far (object addresses printed by str)]         *)
+(*                       so far (object addresses printed by str)          *)
+(*            extbuf   : content of a shared callExtension result buffer]  *)
 (*   store = [alive, dec, ctr, defs, glob, cfg, types, objs, ops]          *)
 (*                                                                         *)
 (* A statement is a record [k |-> kind, n |-> Int]; Apply(w, who, s) gives *)
@@ -27,20 +28,30 @@
 (*                      (cmds__, help__) come in an order that depends on   *)
 (*                      which instance (with which operator set) came first*)
 (*   AddressInOutput    str of an object/group prints its heap address     *)
+(* Two further deviations describe regressions the pinned code does NOT    *)
+(* have (FALSE = the code); they make the corresponding probes non-vacuous: *)
+(*   ObjectHashIsAddress  objects hash by their heap address: a hashmap    *)
+(*                      keyed by objects enumerates (keys, str) in an order *)
+(*                      that depends on the process' address base and on    *)
+(*                      everything allocated before                         *)
+(*   ExtBufferIsStatic  callExtension hands the extension one process-wide *)
+(*                      result buffer that is not cleared: a call that      *)
+(*                      writes no (or a short unterminated) answer returns  *)
+(*                      what the last call of ANY instance left there       *)
 (* DefinesPersist is a mechanism parameter, not a deviation: whether a     *)
 (* #define of one preprocessor call is visible in later calls of the SAME  *)
 (* instance (the pinned code: no). Either way it stays inside the instance.*)
 (***************************************************************************)
 EXTENDS Integers, Sequences, FiniteSets, TLC
 
-CONSTANTS ToFixedSetsStatic, CounterIsStatic, TypeIdByFirstUse, AddressInOutput, DefinesPersist
+CONSTANTS ToFixedSetsStatic, CounterIsStatic, TypeIdByFirstUse, AddressInOutput, ObjectHashIsAddress, ExtBufferIsStatic, DefinesPersist
 
 Names == {"P", "Q"}
 Kinds == {"create", "print", "evalprint", "tofixed", "fixedprint", "fmtfixed", "counter", "define", "usedef", "defuse",
-          "setg", "readg", "loadcfg", "readcfg", "typeorder", "collstr", "objstr"}
+          "setg", "readg", "loadcfg", "readcfg", "typeorder", "collstr", "objstr", "objmap", "extecho", "extquiet"}
 
 Fresh == [alive |-> FALSE, dec |-> -1, ctr |-> 0, defs |-> 0, glob |-> 0, cfg |-> 0, types |-> <<>>, objs |-> 0, ops |-> 0]
-NewWorld(base) == [inst |-> [i \in Names |-> Fresh], decimals |-> -1, ppCounter |-> 0, typeIds |-> <<>>, heap |-> base, alloc |-> 0]
+NewWorld(base) == [inst |-> [i \in Names |-> Fresh], decimals |-> -1, ppCounter |-> 0, typeIds |-> <<>>, heap |-> base, alloc |-> 0, extbuf |-> ""]
 
 \* the types an operator set mentions, in registration order: 1 = full, 2 = basic (no group/object operators)
 OpsTypes(ops) == IF ops = 1 THEN <<"CONFIG", "GROUP", "SCALAR", "HASHMAP">> ELSE <<"CONFIG", "SCALAR", "HASHMAP">>
@@ -92,6 +103,14 @@ Apply(w, who, s) ==
       [] s.k = "objstr" ->
             [w |-> [w EXCEPT !.inst[who].objs = me.objs + 1, !.alloc = w.alloc + 1],
              out |-> <<IF AddressInOutput THEN "obj@" \o ToString(w.heap + w.alloc) ELSE "obj#" \o ToString(me.objs + 1)>>]
+
+      \* a hashmap keyed by several objects the statement creates, enumerated (keys / str); only names are printed
+      [] s.k = "objmap" ->
+            [w |-> [w EXCEPT !.inst[who].objs = me.objs + 3, !.alloc = w.alloc + 3],
+             out |-> <<IF ObjectHashIsAddress THEN "objmap by address " \o ToString(w.heap + w.alloc) ELSE "objmap o3,o2,o1">>]
+      \* callExtension of a stateless extension: an answered call, and one the extension leaves unanswered
+      [] s.k = "extecho" -> [w |-> IF ExtBufferIsStatic THEN [w EXCEPT !.extbuf = "v" \o ToString(s.n)] ELSE w, out |-> <<"ext v" \o ToString(s.n)>>]
+      [] s.k = "extquiet" -> [w |-> w, out |-> <<"ext " \o (IF ExtBufferIsStatic THEN w.extbuf ELSE "")>>]
 
 Enabled(w, who, s) == IF s.k = "create" THEN ~w.inst[who].alive ELSE w.inst[who].alive
 
